@@ -273,6 +273,16 @@ def pairs_block(r, name, d):
     c = copy.deepcopy(d)
     c["declarations"] = [{"block": True, "declarations": copy.deepcopy(decls)}]
     out = [("block:transparent-some", a, b), ("block:transparent-all", copy.deepcopy(d), c)]
+    # a block inside a class (docs/input.rst: blocks group declarations of a library, namespace or class)
+    for ci, e in enumerate(decls):
+        if isinstance(e, dict) and e.get("decl", "").lstrip().startswith("class") and len(e.get("declarations") or []) >= 2:
+            g = copy.deepcopy(d)
+            mem = g["declarations"][ci]["declarations"]
+            k1 = r.randrange(0, len(mem))
+            k2 = r.randrange(k1, len(mem)) + 1
+            g["declarations"][ci]["declarations"] = mem[:k1] + [{"block": True, "declarations": mem[k1:k2]}] + mem[k2:]
+            out.append(("block:transparent-in-class", copy.deepcopy(d), g))
+            break
     # a block that carries settings, with and without an empty block nested inside it (settings reach through)
     fld, key, val = r.choice([("options", "wrap_python", False), ("options", "wrap_fortran", False), ("options", "wrap_c", False),
                               ("options", "F_force_wrapper", True), ("options", "debug", True), ("format", "C_result", "myrv"),
@@ -287,6 +297,51 @@ def pairs_block(r, name, d):
     e2["declarations"] = decls[:i] + [dict({"block": True, "declarations": [{"block": True, "declarations": copy.deepcopy(decls[i:j])}]},
                                            **copy.deepcopy(setting))] + decls[j:]
     out.append(("block:nested-inherits:%s.%s" % (fld, key), e1, e2))
+    return out
+
+
+def pairs_namespace(name, d):
+    """Container = a namespace declaration (at any depth): a setting written on the namespace equals the same setting on
+    every function declared inside it (nested namespaces included).  Wrapper switches are tried with the wrapper off
+    at library level, so that the namespace is the only place that turns it on."""
+    out = []
+    paths = []
+
+    def walk(lst, path):
+        for i, e in enumerate(lst):
+            if isinstance(e, dict) and e.get("decl", "").lstrip().startswith("namespace") and isinstance(e.get("declarations"), list):
+                paths.append(path + [i])
+                walk(e["declarations"], path + [i])
+    walk(d.get("declarations") or [], [])
+
+    def node(dd, path):
+        cur = dd
+        for i in path:
+            cur = cur["declarations"][i]
+        return cur
+
+    def each_func(nsnode, fn):
+        for e in nsnode["declarations"]:
+            if isinstance(e, dict) and isinstance(e.get("declarations"), list) and e.get("decl", "").lstrip().startswith("namespace"):
+                each_func(e, fn)
+            elif isinstance(e, dict) and is_func_entry(e):
+                fn(e)
+    settings = [("options", k, vs[0], None) for k, vs in FUNC_OPTIONS.items()] + [("format", k, vs[0], None) for k, vs in FUNC_FORMATS.items() if k in ("C_result", "F_result")]
+    for w in ("wrap_python", "wrap_lua", "wrap_fortran", "wrap_c"):
+        settings.append(("options", w, True, w))
+    for path in paths:
+        for field, k, v, lib_off in settings:
+            base = copy.deepcopy(d)
+            if lib_off:
+                base.setdefault("options", {})[lib_off] = False
+                if lib_off == "wrap_c":
+                    base["options"]["wrap_fortran"] = False
+            a = copy.deepcopy(base)
+            na = node(a, path)
+            na[field] = dict(na.get(field) or {}, **{k: v})
+            b = copy.deepcopy(base)
+            each_func(node(b, path), lambda e: e.__setitem__(field, dict(e.get(field) or {}, **{k: v})))
+            out.append(("scope:namespace%d:%s.%s" % (len(path), field, k), a, b))
     return out
 
 
@@ -364,10 +419,14 @@ def main(rec):
     for row_, T_ in gen.instances("c++", ("c", "fortran")):
         by_id.setdefault(row_["id"], (row_, T_))
     fixed_ids = ["scalar2", "str_cref", "template_arg", "str_ref_out", "overload2", "vec_in", "default2", "str_res_val", "res_ptr_fixed",
-                 "cstr_in", "generic_real", "vec_out", "mixed", "str_res_cref", "cstr_inout", "res_ptr_scalar", "class_long_overloads", "class_named", "res_ptr_deref_scalar", "class_basic"]
+                 "cstr_in", "generic_real", "generic_attrs", "vec_out", "mixed", "str_res_cref", "cstr_inout", "res_ptr_scalar", "class_long_overloads", "class_named", "res_ptr_deref_scalar", "class_basic"]
     fixed_items = [by_id[i] for i in fixed_ids if i in by_id]
     fixed = [("gfixa", gen.library("gfixa", "c++", fixed_items, ("c", "fortran")), {}),
              ("gfixb", gen.library("gfixb", "c++", list(reversed(fixed_items)), ("c", "fortran")), {})]
+    ns_items = [by_id[i] for i in ("namespace_scalar", "namespace_fn", "scalar2") if i in by_id]
+    nsfixed = gen.library("gnsa", "c++", ns_items, ("c", "fortran", "python"))
+    for rel, a, b in pairs_namespace("gnsa", nsfixed):
+        jobs.append((rel, "gnsa", spec_of("gnsa", a), spec_of("gnsa", b)))
     for li, (name, d, meta) in enumerate(mixes + singles + fixed):
         prs = []
         if name.startswith("gfix"):
